@@ -394,7 +394,7 @@ Qed.
     reachable state whose local files from the remote max upwards are all
     present returns nil and leaves the replica holding exactly the TXIDs from
     the retention floor up to the local max *)
-Theorem catch_up_thm : forall fl st, reach fl st ->
+Theorem catch_up_inv : forall fl st, uinv fl st ->
   maxl (u_local st) <> 0 ->
   (forall t, maxl (u_remote st) < t <= maxl (u_local st) -> In t (u_local st)) ->
   let r := sync 0 st [] in
@@ -402,7 +402,7 @@ Theorem catch_up_thm : forall fl st, reach fl st ->
   u_pos (s_st r) = N.max (maxl (u_remote st)) (maxl (u_local st)) /\
   (forall t, In t (u_remote (s_st r)) <-> fl <= t <= N.max (maxl (u_remote st)) (maxl (u_local st))).
 Proof.
-  intros fl st R Hd Hl r. pose proof (reach_inv fl st R) as I.
+  intros fl st I Hd Hl r.
   assert (Once : s_err (sync_once 0 st []) = E_NIL /\ s_limited (sync_once 0 st []) = false /\
                  u_pos (s_st (sync_once 0 st [])) = N.max (maxl (u_remote st)) (maxl (u_local st))).
   { unfold sync_once. destruct I as (I1 & I2).
@@ -424,6 +424,99 @@ Proof.
   split; [exact E|]. split; [exact P|].
   intros t. destruct A1 as (_ & _ & X). rewrite X, <- D1, P. reflexivity.
 Qed.
+
+Theorem catch_up_thm : forall fl st, reach fl st ->
+  maxl (u_local st) <> 0 ->
+  (forall t, maxl (u_remote st) < t <= maxl (u_local st) -> In t (u_local st)) ->
+  let r := sync 0 st [] in
+  s_err r = E_NIL /\
+  u_pos (s_st r) = N.max (maxl (u_remote st)) (maxl (u_local st)) /\
+  (forall t, In t (u_remote (s_st r)) <-> fl <= t <= N.max (maxl (u_remote st)) (maxl (u_local st))).
+Proof. intros fl st R. apply catch_up_inv. apply (reach_inv fl st R). Qed.
+
+(** ---- the replica never gets ahead of what was uploaded --------------------- *)
+Definition uinv_local_const (st : ust) : Prop := True.
+
+Lemma upload_loop_local fuel : forall maxf dpos n st s tr,
+  u_local (s_st (upload_loop fuel maxf dpos n st s tr)) = u_local st.
+Proof.
+  induction fuel as [|fuel IH]; intros maxf dpos n st s tr.
+  - simpl. destruct (negb (u_pos st + 1 <=? dpos)); reflexivity.
+  - cbn [upload_loop]. cbv zeta.
+    destruct (negb (u_pos st + 1 <=? dpos)); [reflexivity|].
+    destruct ((0 <? maxf) && (maxf <=? n)); [reflexivity|].
+    destruct (negb (mem (u_pos st + 1) (u_local st))); [reflexivity|].
+    destruct (next_outcome s) as [o s'].
+    destruct o; simpl client_write; cbv iota beta; try reflexivity.
+    rewrite IH. reflexivity.
+Qed.
+
+Lemma sync_once_local maxf st s : u_local (s_st (sync_once maxf st s)) = u_local st.
+Proof.
+  unfold sync_once.
+  assert (Main : forall st1 s1 tr1, u_local st1 = u_local st ->
+     u_local (s_st (let dpos := maxl (u_local st1) in
+                    if N.eqb dpos 0 then fail E_WAIT st1 s1 tr1
+                    else upload_loop (S (N.to_nat (dpos - u_pos st1))) maxf dpos 0 st1 s1 tr1)) = u_local st).
+  { intros st1 s1 tr1 E. cbv zeta. destruct (N.eqb (maxl (u_local st1)) 0); [simpl; exact E|].
+    rewrite upload_loop_local. exact E. }
+  destruct (N.eqb (u_pos st) 0).
+  - destruct (next_outcome s) as [o s']. destruct o; simpl client_list; cbv iota beta; try reflexivity.
+    apply Main; reflexivity.
+  - apply Main; reflexivity.
+Qed.
+
+Lemma upload_loop_bound fuel : forall maxf dpos n st s tr,
+  maxl (u_remote (s_st (upload_loop fuel maxf dpos n st s tr))) <= N.max (maxl (u_remote st)) dpos.
+Proof.
+  induction fuel as [|fuel IH]; intros maxf dpos n st s tr.
+  - simpl. destruct (negb (u_pos st + 1 <=? dpos)); simpl; lia.
+  - cbn [upload_loop]. cbv zeta.
+    destruct (negb (u_pos st + 1 <=? dpos)) eqn:EC; [simpl; lia|].
+    apply negb_false_iff, N.leb_le in EC.
+    destruct ((0 <? maxf) && (maxf <=? n)); [simpl; lia|].
+    destruct (negb (mem (u_pos st + 1) (u_local st))); [simpl; lia|].
+    destruct (next_outcome s) as [o s'].
+    destruct o; simpl client_write; cbv iota beta; try (simpl; lia).
+    + eapply N.le_trans; [apply IH|]. simpl. rewrite maxl_ins. lia.
+    + simpl. rewrite maxl_ins. lia.
+Qed.
+
+Lemma sync_once_bound maxf st s :
+  maxl (u_remote (s_st (sync_once maxf st s))) <= N.max (maxl (u_remote st)) (maxl (u_local st)).
+Proof.
+  unfold sync_once.
+  assert (Main : forall st1 s1 tr1, u_remote st1 = u_remote st -> u_local st1 = u_local st ->
+     maxl (u_remote (s_st (let dpos := maxl (u_local st1) in
+                           if N.eqb dpos 0 then fail E_WAIT st1 s1 tr1
+                           else upload_loop (S (N.to_nat (dpos - u_pos st1))) maxf dpos 0 st1 s1 tr1)))
+     <= N.max (maxl (u_remote st)) (maxl (u_local st))).
+  { intros st1 s1 tr1 E1 E2. cbv zeta. destruct (N.eqb (maxl (u_local st1)) 0).
+    - simpl. rewrite E1. lia.
+    - eapply N.le_trans; [apply upload_loop_bound|]. rewrite E1, E2. lia. }
+  destruct (N.eqb (u_pos st) 0).
+  - destruct (next_outcome s) as [o s']. destruct o; simpl client_list; cbv iota beta; try (simpl; lia).
+    apply Main; reflexivity.
+  - apply Main; reflexivity.
+Qed.
+
+Lemma sync_loop_bound maxf fuel : forall st s tr,
+  uinv_local_const st ->
+  maxl (u_remote (s_st (sync_loop fuel maxf st s tr))) <= N.max (maxl (u_remote st)) (maxl (u_local st)).
+Proof.
+  induction fuel as [|fuel IH]; intros st s tr _.
+  - simpl. lia.
+  - cbn [sync_loop]. cbv zeta.
+    pose proof (sync_once_bound maxf st s) as B1.
+    destruct (negb (s_err (sync_once maxf st s) =? E_NIL)); [simpl; exact B1|].
+    destruct (negb (s_limited (sync_once maxf st s))); [simpl; exact B1|].
+    eapply N.le_trans; [apply IH; exact I|].
+    rewrite (sync_once_local maxf st s). lia.
+Qed.
+
+Lemma sync_bound maxf st s :
+  maxl (u_remote (s_st (sync maxf st s))) <= N.max (maxl (u_remote st)) (maxl (u_local st)).
+Proof. unfold sync. apply sync_loop_bound. exact I. Qed.
 
 (** the hypotheses are satisfiable by a non-trivial history: three local files,
     a sync whose second upload fails after taking effect, a retention step, then
